@@ -574,10 +574,54 @@ def rule_r3(prog, res):
     res.floor('R3', 'cache publications', n, 2)
 
 
+# ------------------------------------------------------------------- R4
+def rule_r4(prog, res):
+    res.rule('R4', 'the class-keyed handler cache is filled with a single '
+             'store of the final answer per lookup')
+    from ..flow import SeqFlow, RETURN
+    c = prog.cls('spyne.util.cdict:cdict')
+    f = c.methods.get('__getitem__')
+    if f is None:
+        raise AnalysisError('cdict.__getitem__', 'not found')
+
+    def on_stmt(st):
+        if isinstance(st, ast.Assign) and any(
+                isinstance(t, ast.Subscript) and unparse(t.value) == 'self'
+                for t in st.targets):
+            return ['STORE']
+        if isinstance(st, ast.Expr) and isinstance(st.value, ast.Call) and \
+                call_name(st.value) in ('__setitem__', 'setdefault',
+                                        'update') and 'self' in unparse(
+                st.value):
+            return ['STORE']
+        return None
+    seqs = SeqFlow(lambda call: ((), 'KeyError' if call_name(call) ==
+                                 '__getitem__' else False), on_stmt=on_stmt,
+                   loop_unroll=2).run(f.node)
+    allq = set()
+    for k, v in seqs.items():
+        allq |= v
+    most = max([q.count('STORE') for q in allq] or [0])
+    stores = sum(1 for st in ast.walk(f.node) if on_stmt(st))
+    res.floor('R4', 'cache stores in cdict.__getitem__', stores, 1)
+    ok = most <= 1
+    res.ob('R4', f.where, 'cdict.__getitem__: at most %d cache store(s) on '
+           'any of %d paths' % (most, len(allq)), 'ok' if ok else 'VIOLATED',
+           nontrivial=True)
+    if not ok:
+        res.finding('R4', 'cdict.__getitem__|multiple-stores', f.where,
+                    'a lookup stores more than one value under the same '
+                    'class key before it returns (once per base class): a '
+                    'concurrent request reading the handler table between '
+                    'the stores takes the handler of the wrong base class '
+                    'for that type')
+
+
 def run(prog, res, tier):
     res.run_rule(rule_r1, prog, res)
     res.run_rule(rule_r2, prog, res, tier)
     res.run_rule(rule_r3, prog, res)
+    res.run_rule(rule_r4, prog, res)
 
 
 _W = 'spyne/server/wsgi.py'
@@ -586,6 +630,15 @@ _P = 'spyne/protocol/_base.py'
 _M = 'spyne/util/memo.py'
 
 MUTANTS = [
+    Mutant('cdict-intermediate-stores', 'R4', 'fire', 'spyne/util/cdict.py',
+           in_func('cdict.__getitem__',
+                   "                    self[cls] = retval\n"
+                   "                    return retval\n",
+                   "                    self[cls] = retval\n"),
+           'multiple-stores'),
+    Mutant('cdict-store-via-dict', 'R4', 'benign', 'spyne/util/cdict.py',
+           in_func('cdict.__getitem__', "self[cls] = retval",
+                   "dict.__setitem__(self, cls, retval)"), None),
     Mutant('no-recheck-with', 'R1', 'fire', _W,
            in_func('WsgiApplication.handle_wsdl_request',
                    r"            try:\n                self\._mtx_build_"
